@@ -18,6 +18,7 @@ package c17
 //	INCONCLUSIVE <why>       harness trouble (timing inversion, ceiling on something that is not an observation)
 //	HANG <i>                 step i did not complete within the generous ceiling
 //	NOTIMER                  the TASK_RUNNING timer of a basic/hook task did not fire within the ceiling
+//	                         (although no carried-out KILL preceded its position in the schedule)
 //	ALIVE <0|1>              after the schedule: is any process of any child's process group still alive
 //	DONE
 //
@@ -59,6 +60,12 @@ const (
 	// generous ceilings: exceeding one is reported, never turned into a verdict by itself
 	stepCeiling = 15 * time.Second
 	killCeiling = 40 * time.Second
+	// the delay of the TASK_RUNNING timer in basicTaskBase.doLaunch (Props/C17 proves the extracted value is not
+	// smaller). Used only to recognise a run in which the timer was already due when a KILL had been carried out
+	// (such a run is not the schedule that was asked for: inconclusive), never for a verdict.
+	runningDelay = 200 * time.Millisecond
+	// how long after LAUNCH a TASK_RUNNING that a carried-out KILL should have cancelled is still waited for
+	runningWindow = 800 * time.Millisecond
 )
 
 func init() {
@@ -501,10 +508,14 @@ func runnerMain(input, dir string) {
 	sawRunning := func() bool { return a.count(func(x rec) bool { return x.kind == "S" && x.a == "RUNNING" }, 0) > 0 }
 	launched := false
 	ticked := false
+	// a KILL was carried out before the timer's position in the schedule and no TASK_RUNNING came afterwards:
+	// the timer has been cancelled, `tick` and the end of the schedule have nothing to wait for
+	timerDead := false
+	basicLike := r.kind == "basic" || r.kind == "hook"
 	// the TASK_RUNNING timer of a basic/hook task is scheduled by wall clock (200 ms after Launch); the schedule
 	// gives it a position (`tick`, or the very end). If it fired before that position the run is not the
 	// schedule that was asked for: inconclusive, never a verdict.
-	early := func() bool { return r.kind != "ctl" && !ticked && sawRunning() }
+	early := func() bool { return basicLike && !ticked && sawRunning() }
 	end := func(i int, o stepOutcome) bool {
 		switch o {
 		case stepHang:
@@ -532,6 +543,17 @@ func runnerMain(input, dir string) {
 		a.say("RES 0 loopexit")
 	} else {
 		launched = true
+		if r.kind == "nodata" {
+			// NewTask has queued TASK_FAILED before the handler returned; it leaves the executor on a later
+			// iteration of the loop (sendFailedTasks). Wait for it, so that it is not mistaken for the answer to a
+			// later request.
+			if !r.waitFor(func() bool {
+				return r.loopEnded() || a.count(func(x rec) bool { return x.kind == "S" && isTerminal(x.a) }, 0) > 0
+			}, stepCeiling) {
+				a.say("INCONCLUSIVE no status for a task without data")
+				return
+			}
+		}
 		if r.kind == "ctl" {
 			// the child is started asynchronously: wait until the device is ready (occ*: TASK_RUNNING sent),
 			// or, for a child that never opens its control port, until it has registered itself,
@@ -601,8 +623,12 @@ func runnerMain(input, dir string) {
 			}
 		case "tick":
 			// basic/hook: the 200 ms TASK_RUNNING timer armed by Launch; ctl: the device reached STANDBY
-			if !launched || r.kind == "ctl" {
+			if !launched || !basicLike {
 				a.say("RES %d none", i)
+				break
+			}
+			if timerDead {
+				a.say("RES %d ok", i)
 				break
 			}
 			ticked = true
@@ -635,6 +661,24 @@ func runnerMain(input, dir string) {
 				a.say("HANG %d", i)
 				return
 			}
+			if basicLike && !ticked {
+				// The KILL was carried out before the timer's position. Whether the timer still fires is an
+				// observation: absent = cancelled; present although the terminal status was out before the timer
+				// was due = reported after the terminal status (it is in the emissions, in order). If the timer was
+				// already due when the terminal status was seen, the run is not the schedule that was asked for.
+				raced := time.Since(r.launchT) >= runningDelay
+				left := time.Until(r.launchT.Add(runningWindow))
+				if left < 100*time.Millisecond {
+					left = 100 * time.Millisecond
+				}
+				fired := r.waitFor(sawRunning, left)
+				if fired && raced {
+					a.say("INCONCLUSIVE running timer was due while the kill was carried out")
+					return
+				}
+				ticked = true
+				timerDead = !fired
+			}
 			a.say("RES %d ok", i)
 		case "await":
 			// let the latest child end on its own
@@ -658,7 +702,7 @@ func runnerMain(input, dir string) {
 	}
 	a.say("OP %d end", ops.Len()+1)
 	// final settle: the armed TASK_RUNNING timer of a basic/hook task always fires
-	if launched && (r.kind == "basic" || r.kind == "hook") && !r.loopEnded() {
+	if launched && basicLike && !timerDead && !r.loopEnded() {
 		if early() {
 			a.say("INCONCLUSIVE running timer fired before its position in the schedule")
 			return
